@@ -49,7 +49,7 @@ class Arr(list):
 
 KINDS = ['assign', 'print', 'print2', 'expr', 'printexpr', 'none', 'multi', 'compound', 'def', 'semicolon', 'expr_wild', 'expr_arr', 'expr_words']
 # the richer statement grammar of the C01 program generator (C01, C18, C19, C20)
-MORE_KINDS = ['await_expr', 'unawaited_coro', 'esc_literal', 'augassign', 'for', 'while', 'with', 'try', 'decodef', 'class', 'literal_comment', 'triple', 'triple_unprefixed', 'triple_blank', 'triple_unprefixed_blank', 'bracket_blank', 'triple_trailing_ws', 'triple_late_unprefixed',
+MORE_KINDS = ['await_expr', 'unawaited_coro', 'esc_literal', 'annotated_def', 'augassign', 'for', 'while', 'with', 'try', 'decodef', 'class', 'literal_comment', 'triple', 'triple_unprefixed', 'triple_blank', 'triple_unprefixed_blank', 'bracket_blank', 'triple_trailing_ws', 'triple_late_unprefixed',
               'import', 'comment', 'async_await', 'async_for', 'async_with']
 ALL_KINDS = KINDS + MORE_KINDS
 
@@ -191,6 +191,10 @@ class Stmt:
             self.lines = ["print('cr%%d' %% t(%d), 'x', sep='\\r', end='\\r\\n')" % k]
             self.is_expr = True
             self.out = 'cr%d\rx\r\n' % k
+        elif kind == 'annotated_def':
+            # annotations are expressions that are evaluated when the def statement runs (no `from __future__ import annotations` here)
+            self.lines = ['def an%d(x: t(%d)) -> tn(%d):' % (k, k, k), '    return x', 'v%d: t(%d) = len(an%d.__annotations__)' % (k, k, k)]
+            self.starts = [0, 2]
         elif kind == 'esc_literal':
             # real terminal escape sequences inside string literals (ESC [ ... m, and the one-byte CSI) are part of the code
             self.lines = ["e%d = '\x1b[31m' + str(t(%d)) + '\x1b[0m' + '\x9b1m'" % (k, k), "print(len(e%d), e%d.count(chr(27)))" % (k, k)]
